@@ -30,6 +30,7 @@ class Target:
         self.mix = mix  # optional second mode: dict(centre=[..], logamp=float)
         self.n_points = 0
         self.n_calls = 0
+        self.n_finite = 0
 
     # ---- prior transform (always called on one row)
     def pt(self, u):
@@ -76,17 +77,23 @@ class Target:
         x = np.asarray(x, dtype=float)
         self.n_calls += 1
         self.n_points += x.shape[0]
-        return np.array([self.ll_row(x[i]) for i in range(x.shape[0])])
+        out = np.array([self.ll_row(x[i]) for i in range(x.shape[0])])
+        self.n_finite += int(np.sum(np.isfinite(out)))
+        return out
 
     def loglike_scalar(self, x):
         self.n_calls += 1
         self.n_points += 1
-        return self.ll_row(x)
+        v = self.ll_row(x)
+        self.n_finite += int(math.isfinite(v))
+        return v
 
     def loglike_blobs(self, x):
         self.n_calls += 1
         self.n_points += 1
-        return self.ll_row(x), self.blob_row(x)
+        v = self.ll_row(x)
+        self.n_finite += int(math.isfinite(v))
+        return v, self.blob_row(x)
 
     @property
     def loglike(self):
